@@ -2,7 +2,12 @@
 
 package engine
 
-import "sort"
+import (
+	"sort"
+
+	chart "helm.sh/helm/v4/pkg/chart/v2"
+	chartutil "helm.sh/helm/v4/pkg/chart/v2/util"
+)
 
 // VerifFuncMapNames returns the sorted names of the template functions the engine
 // registers (the key set of funcMap()).
@@ -25,3 +30,38 @@ func VerifSortTemplates(paths []string) []string {
 	}
 	return sortTemplates(m)
 }
+
+// VerifTemplateKeys returns the keys of allTemplates(c, vals) in map iteration order.
+func VerifTemplateKeys(c *chart.Chart, vals chartutil.Values) []string {
+	m := allTemplates(c, vals)
+	keys := make([]string, 0, len(m))
+	for k := range m {
+		keys = append(keys, k)
+	}
+	return keys
+}
+
+// VerifFiles is the .Files object of a template built from the given chart files,
+// optionally narrowed by Glob(pattern) first (pattern "" = no Glob).
+type VerifFiles struct{ f files }
+
+func VerifNewFiles(from []*chart.File, pattern string) VerifFiles {
+	f := newFiles(from)
+	if pattern != "" {
+		f = f.Glob(pattern)
+	}
+	return VerifFiles{f}
+}
+
+func (v VerifFiles) Names() []string {
+	names := make([]string, 0, len(v.f))
+	for k := range v.f {
+		names = append(names, k)
+	}
+	sort.Strings(names)
+	return names
+}
+func (v VerifFiles) Get(name string) string     { return v.f.Get(name) }
+func (v VerifFiles) Lines(name string) []string { return v.f.Lines(name) }
+func (v VerifFiles) AsConfig() string           { return v.f.AsConfig() }
+func (v VerifFiles) AsSecrets() string          { return v.f.AsSecrets() }
